@@ -48,6 +48,10 @@ type vProfile struct {
 	decor3      bool  // decorators may also produce a second key they do not consume
 	scopesFirst bool  // scopes are created before the first registration only
 	noPerm      bool  // C16: keep the registration order, vary scope creation time only
+	groupNames  int   // 2: group names are drawn from {"g", "g "}
+	lateFirst   bool  // the late registrations come before the first Invoke (C06: right after the candidate)
+	allAccepted bool  // assume every registration is accepted
+	strictDecor bool  // assume every decorated single key has a constructor visible from the decorator's scope
 	visErr      bool  // call Visualize(VisualizeError(err)) after every failed Invoke
 }
 
@@ -104,7 +108,7 @@ func (h *vHist) genParam(tag string, allowGroup bool) *vParam {
 	}
 	if p.form > 0 {
 		if h.p.groups && allowGroup && verifNdBool(tag+".grp") {
-			p.group = "g"
+			p.group = h.groupName(tag)
 			if h.p.soft {
 				p.soft = verifNdBool(tag + ".soft")
 			}
@@ -217,7 +221,7 @@ func (h *vHist) genFunc(kind int, tag string) *vFunc {
 				}
 			} else {
 				if h.p.groups && verifNdBool(tag+".r"+vItoa(i)+".grp") {
-					r.group = "g"
+					r.group = h.groupName(tag + ".r" + vItoa(i))
 					if h.p.flatten && verifNdBool(tag+".r"+vItoa(i)+".flat") {
 						r.flatten = 1 + verifNdInt(tag+".r"+vItoa(i)+".flen", 3)
 					}
@@ -270,6 +274,15 @@ func (h *vHist) genFunc(kind int, tag string) *vFunc {
 }
 
 func vSameType(a, b reflect.Type) bool { return a == b }
+
+var vGroupNames = []string{"g", "g "}
+
+func (h *vHist) groupName(tag string) string {
+	if h.p.groupNames > 1 {
+		return vGroupNames[verifNdInt(tag+".gname", h.p.groupNames)]
+	}
+	return "g"
+}
 
 // assumeDistinct restricts the history to registrations whose produced single
 // keys are pairwise different from those of earlier constructors.
@@ -621,6 +634,12 @@ func (h *vHist) afterInvoke(w *vWorld, r *vReg, o vOutcome, cl *vClosure, before
 		if !w.permCyc {
 			h.assert("C05s.nofalse", o.class != vcCycle)
 		}
+		if w.deferV && w.statCyc {
+			// deferred verification: the Invoke is where a cycle closed by an
+			// earlier Provide has to be reported, cached values or not
+			h.assert("C05s.invokeStatic", o.class == vcCycle)
+			verifWitness("invoke-on-static-cycle")
+		}
 		h.assert("C05s.nopanic", o.class != vcPanicked)
 	}
 	if len(failed) == 0 && !w.deferV && !w.resCyc {
@@ -633,7 +652,8 @@ func (h *vHist) afterInvoke(w *vWorld, r *vReg, o vOutcome, cl *vClosure, before
 		}
 		h.assert("C04.err", ran == 0)
 		verifWitness("missing")
-	} else if len(failed) == 0 && !w.deferV {
+	} else if len(failed) == 0 && !w.deferV && !w.resCyc && !w.permCyc {
+		// "... the graph is acyclic ..." (also through decorator parameters)
 		h.assert("C04.ok", o.class == vcOK)
 	}
 	// bystanders: functions outside the closure did not run
@@ -773,6 +793,12 @@ func (h *vHist) skeleton() []func() []vOp {
 			return h.genReg(h.genScopes(nil, "s"+vItoa(i)), "f"+vItoa(i))
 		})
 	}
+	if h.p.lateFirst {
+		for i := 0; i < h.p.lateRegs; i++ {
+			i := i
+			steps = append(steps, func() []vOp { return h.genReg(nil, "l"+vItoa(i)) })
+		}
+	}
 	for j := 0; j < h.p.nInvokes; j++ {
 		j := j
 		steps = append(steps, func() []vOp {
@@ -782,7 +808,7 @@ func (h *vHist) skeleton() []func() []vOp {
 			}
 			return h.genInvoke(ops, "i"+vItoa(j))
 		})
-		if j == h.p.lateAfter {
+		if j == h.p.lateAfter && !h.p.lateFirst {
 			for i := 0; i < h.p.lateRegs; i++ {
 				i := i
 				steps = append(steps, func() []vOp { return h.genReg(nil, "l"+vItoa(i)) })
@@ -844,6 +870,21 @@ func (h *vHist) apply(w *vWorld, ops []vOp) {
 			}
 			h.assert("C03.reg", w.nexec == before)
 			h.assert("C14.nopanic", o.class != vcPanicked)
+			if h.p.allAccepted {
+				verifAssume(o.class == vcOK)
+			}
+			if h.p.strictDecor && op.f.kind == vDecor && o.class == vcOK {
+				for _, r := range op.f.results {
+					if r.group != "" {
+						continue
+					}
+					n := 0
+					for _, t := range w.pathToRoot(op.scope) {
+						n += len(w.suppliersAt(t, r.key()))
+					}
+					verifAssume(n > 0)
+				}
+			}
 			w.record(op.tag + ":" + vClassNames[o.class] + vPanicText(o.panicv))
 			if o.class == vcCycle {
 				verifWitness("provide-cycle")
@@ -857,8 +898,18 @@ func (h *vHist) apply(w *vWorld, ops []vOp) {
 			if h.p.noMissing {
 				verifAssume(!cl.missing)
 			}
+			if h.p.strictDecor {
+				// decorators whose own dependencies are missing: what their
+				// consumers get is outside the property texts
+				for _, d := range w.regs {
+					if d.accepted && d.f.kind == vDecor {
+						verifAssume(!w.unavailable(d, nil))
+					}
+				}
+			}
 			w.resCyc = w.resCycle(op.scope, op.f.params, nil, nil)
 			w.permCyc = w.permissiveCycle(nil)
+			w.statCyc = w.staticCycle(op.scope, op.f.params)
 			w.inv = cl
 			before := h.execCounts(w)
 			r, o := w.invoke(op.f, op.scope)
